@@ -97,8 +97,8 @@ theorem isValid_spec (bs : List UInt8) :
 example : fromString [0xE2, 0x82, 0xAC] 3 = .ok 0x20AC := by decide
 example : fromString [0xE2, 0x82] 3 = .oob := by decide          -- a caller lying about the length faults
 example : isValid [0xF0, 0x9F, 0x98, 0x80, 0x41] 5 = .ok true := by
-  simp [isValid, isValidLoop, rdR, rd, utf8Length]
-example : isValid [0xF0, 0x9F, 0x98] 3 = .ok false := by simp [isValid, isValidLoop, rdR, rd, utf8Length]  -- truncated: rejected without reading on
+  simp [isValid, isValidLoop, rdR, rd, utf8Length, validBad4]
+example : isValid [0xF0, 0x9F, 0x98] 3 = .ok false := by simp [isValid, isValidLoop, rdR, rd, utf8Length, validBad4]  -- truncated: rejected without reading on
 example : toString 0x20AC = [0xE2, 0x82, 0xAC] := by decide
 
 /-! ## fromHex -/
